@@ -11,7 +11,7 @@ PROPS = {
         "not_decided": "bounded-time liveness over all histories; diff logic prev_keys/cur_keys; timeout arithmetic",
     },
     "C02": {
-        "rules": [r_panic.run_rt, r_prodcons.run, r_rec.run_rt, r_coordspace.run, r_lock.run],
+        "rules": [r_panic.run_rt, r_prodcons.run, r_rec.run_rt, r_coordspace.run, r_lock.run, r_opcode.run_all],
         "explanation": "Decides: (R-PANIC/rt) every panic-capable site (bounds check, slice/Vec index, unsigned subtraction, narrow "
                        "addition/multiplication, negation, division, shift, unwrap/expect, assert!/unreachable!/panic!) in the "
                        "functions reachable from the event/tick entry points is either discharged by the guard data-flow (constant "
@@ -23,14 +23,15 @@ PROPS = {
                        "locked again on the thread that still holds its guard: guard live ranges vs. the call graph, lock wrappers "
                        "such as zch() included, closures given to thread::spawn excluded. Library calls with panicking "
                        "preconditions (heapless extend, ArrayDeque::drain, slice::swap, clone_from_slice, RefCell::borrow_mut, "
-                       "bytemuck::cast_slice, chunks/windows of size 0) are part of the census.",
+                       "bytemuck::cast_slice, chunks/windows of size 0) are part of the census. The rules that reviewed table entries "
+                       "lean on (R-OPCODE-* for the switch evaluator's asserts) are run as part of this check.",
         "not_decided": "value-level invariants listed in the reviewed table (each spelled out in the evidence); bounded work per "
                        "millisecond; stack depth (recursion through rpt-any is a known limitation, see DESIGN.md); std / dependency "
                        "internals. (R-REC/rt) recursive calls on the event path take their action argument from a sub-structure of the "
                        "caller's own action, never from stored state (except the reviewed defsrc row)",
     },
     "C03": {
-        "rules": [r_panic.run_parse, r_span.run, r_rec.run_parse, r_coordspace.run, r_errdrop.run],
+        "rules": [r_panic.run_parse, r_span.run, r_rec.run_parse, r_coordspace.run, r_errdrop.run, r_opcode.run_all],
         "explanation": "Decides: (R-SPAN) the lexer only compares bytes with ASCII constants, Span/Position are built or modified "
                        "only in the s-expression module, the single post-hoc span adjustment is guarded by a test selecting exactly "
                        "one lexer message, and text is indexed by a span only through Index<Span> on that span's own file_content(); "
